@@ -581,6 +581,23 @@ class CompositeProperty(
                 cprop.strategy_key = (("deferred", True), ("instrument", True))
             cprop.group = self.group
 
+    def merge(
+        self,
+        session: Any,
+        source_state: Any,
+        source_dict: Any,
+        dest_state: Any,
+        dest_dict: Any,
+        load: bool,
+        _recursive: Any,
+        _resolve_conflict_map: Any,
+    ) -> None:
+        # the column attributes are merged by their own properties; a
+        # composite value already built (and cached) on the destination
+        # would keep the old column values until the next flush or expire.
+        # Discard it, it is rebuilt from the merged columns on next access.
+        dest_dict.pop(self.key, None)
+
     def _setup_event_handlers(self) -> None:
         """Establish events that populate/expire the composite attribute."""
 
